@@ -9,7 +9,9 @@ SPEC = {
         "translators/tr_type2.py (regenerates coq/Gen/Type2Consts.v on every run: operator constants, "
         "STACK_LIMIT, MAX_OPERANDS of CFF/CFF2 and of the hv/vh scratch array, reserved bytes and number "
         "ranges of the dispatch, parse_int1/2/3 formulas, calc_subroutine_bias, u8 -> VisitOp -> parse "
-        "function dispatch, STANDARD_ENCODING)",
+        "function dispatch, STANDARD_ENCODING, the ISOAdobe test of seac_code_to_glyph_id, the hit test / index / "
+        "glyphs-per-range of CustomCharset::glyph_id_for_sid_in_ranges; Charset::sid_to_gid and CustomCharset::sid_to_gid "
+        "are pinned textually)",
         "coq/Model/Type2.v is a hand-written model of visit_impl / CharStringParser / ArgumentsStack / "
         "blend (control flow tied to the Rust by the correspondence only); f32 arithmetic is modelled by "
         "exact rationals (exact on integer operands below 2^24, compared with tolerance otherwise)",
@@ -17,6 +19,11 @@ SPEC = {
         "ItemVariationStore readers it goes through are outside the model (env = already-parsed font)",
     ],
     "assumptions": [
+        "a charset lists at most 65534 glyphs (a CFF font has at most 65535: u16 count of the CharStrings INDEX) and its "
+        "fields are unsigned; beyond that the u16 glyph counter of glyph_id_for_sid_in_ranges overflows (modelled: panic in "
+        "debug, wrap in release; not generated)",
+        "seac theorem: the components are plain well-formed glyphs (no nested seac) and the charset is ISOAdobe or custom; "
+        "the Expert / ExpertSubset charsets resolve no seac code (as coded; correspondence only)",
         "well-formedness of a program is Model/Type2Spec.v prog_wf: operators with the operand shapes "
         "of TN5177, at most 48 (CFF) / 513 (CFF2) operands per operator, segments only after a moveto, "
         "mask length ceil(stems/8), fewer than 2^32-7 stem hints",
@@ -30,7 +37,22 @@ SPEC = {
             "boundaries into local/global subroutines (pools of 0-6, 1239, 1240, 1241, 33899, 33900 entries; "
             "nesting 0-3 and chains of 9/10/11), wrapped in name-keyed CFF (55%), CID-keyed CFF with 1-3 "
             "Font DICTs and decoy subrs (20%) or CFF2 with 1-3 Font DICTs, optional variation store (1/6 of "
-            "the ItemVariationData list no regions: blend with k = 0) and blends (25%); 1/12 seac composites; 1/7 damaged (byte flip, truncation, inserted reserved/"
+            "the ItemVariationData list no regions: blend with k = 0) and blends (25%); plain glyphs carry charsets of every form "
+            "(ISOAdobe, Expert, ExpertSubset, format 0, 1, 2); 1/8 seac composites over name-keyed fonts whose charset is ISOAdobe "
+            "(4-16 glyphs, fonts ending at each gap of StandardEncoding, all 229), Expert/ExpertSubset, or custom in format 0/1/2 "
+            "built from 1-5+ unsorted ranges (length 1 in a third of them, ranges adjacent to one another, outside the standard "
+            "SIDs, rarely overlapping, one long range, last range covering more glyphs than the font has), components chosen on "
+            "purpose at the first/last/only glyph of a range and at the codes on both sides of every gap of StandardEncoding "
+            "(126/161, 228/232, 245, 251), 1/7 of the codes random or naming no glyph, every other glyph a different small "
+            "outline; 1/24 charset queries (Charset::sid_to_gid for the SIDs 0..255 and id_for_glyph for every glyph of such "
+            "charsets); 1/7 damaged (byte flip, truncation, inserted reserved/"
             "call/number bytes, 49+ operands, missing endchar); distinct = distinct input lines; class "
-            "histogram key = font kind : result kind : features (s subrs, c curves, m several contours, z a region-less ItemVariationData in the store) or error name",
+            "histogram key = font kind : result kind : features (s subrs, c curves, m several contours, z a region-less ItemVariationData in the store) or error name; "
+            "seac cases: seac<charset form i/e/x/0/1/2><position of base><position of accent> with F/L/O/M = first/last/only/middle glyph "
+            "of its range, + found (format 0, ISOAdobe), 0 .notdef, N names no glyph; q:<charset form> = charset query. "
+            "JUDGES: (a) model = specification by the theorems, any other outcome on an accepted program is a violation; "
+            "(b) seac cases carry the operands (adx ady bchar achar): the expected outline is recomputed WITHOUT the model's charset "
+            "lookup and seac step -- StandardEncoding from the specification's table, glyph = first glyph whose charset entry is the "
+            "SID, path(base) ++ path(accent) + (adx, ady) -- and compared with the implementation; (c) charset queries are compared "
+            "with the inverse of the charset's glyph -> SID list",
 }
